@@ -580,8 +580,10 @@ func lookup(mod api.Module, i uint32, ft wenc.FuncType) (out string) {
 	typ.CacheNumInUint64()
 	// only the function index is used: for host functions the compiler engine's
 	// LookupFunction returns a pointer that is not a *ModuleInstance.
-	_, index := m.Engine.LookupFunction(m.Tables[0], m.GetFunctionTypeID(typ), i)
-	return fmt.Sprintf("f%d", index)
+	// Only the fact that the element has this type is used: the function index the engines
+	// return is not comparable (the compiler's is unreliable for imported functions).
+	m.Engine.LookupFunction(m.Tables[0], m.GetFunctionTypeID(typ), i)
+	return "fn"
 }
 
 // Diff returns the index and text of the first differing event ("" if equal).
